@@ -128,7 +128,9 @@ func (w *c15cWorld) makeGroup(tol int64, pol consts.DialerSelectionPolicy, fixed
 	})
 	w.st.Emit(op, out)
 	// outbounds[0], [1] are the reserved direct/block slots; the group under test is user outbound 2.
-	w.cp = &ControlPlane{log: w.opt.Log, outbounds: []*ob.DialerGroup{w.g, w.g, w.g}, dialMode: consts.DialMode_DomainPlus}
+	w.cp = &ControlPlane{log: w.opt.Log}
+	w.cp.outbounds = []*ob.DialerGroup{w.g, w.g, w.g}
+	w.cp.dialMode = consts.DialMode_DomainPlus
 }
 
 func (w *c15cWorld) syncPens(d int) {
